@@ -252,6 +252,17 @@ def check_C12(ctx):
                              "objects are 60-150 logical bytes so that every byte offset of the stored form is enumerated"] + E2_ASSUME[:2])
 
 
+def check_C16(ctx):
+    g = ctx.bin(GRID)
+    shards = 4
+    jobs = [Job(g, "TestC16", name="C16:%s#%d" % (mode, sh), timeout=1200, env={"VERIF_PARAM_MODE": mode, "VERIF_SHARD": "%d/%d" % (sh, shards), "GOMAXPROCS": "4"})
+            for mode in ("zstd", "uncompressed") for sh in range(shards)]
+    return dict(level="exploration", jobs=jobs,
+                rule="ByteStream.Write streams over the real handler: {identity, zstd} x blob present/absent x finish_write {last, none, on the first of several messages} x later resource names {omitted, repeated, changed} x first write_offset {0,1} x declared size {n, n-1, n+1} plus six resource-name shapes; for the base variants ALL compositions of a 6-byte payload into 1..4 (5 thorough) messages incl. empty ones, for deviating variants a spread; each followed by FindMissingBlobs and QueryWriteStatus; non-trivial = distinct (variant, composition) cells",
+                assumptions=["through the real gRPC server over bufconn with the real client stream API",
+                             "the interleaving of the handler's three goroutines is whatever the runtime picks; the oracle only contains outcomes that do not depend on it"])
+
+
 def check_C17(ctx):
     th = ctx.thorough()
     jobs = e2lru_jobs(ctx, "C17", 6 if th else 4, 1500 if th else 100, hard_extras=(-1, 0, 1, 2))
@@ -315,7 +326,7 @@ def check_C13(ctx):
                              "a method unknown to the harness's read-only list is treated as mutating"])
 
 
-CHECKS = {"C01": check_C01, "C02": check_C02, "C08": check_C08, "C09": check_C09, "C06": check_C06, "C10": check_C10, "C12": check_C12, "C13": check_C13, "C17": check_C17, "C03": check_C03, "C04": check_C04, "C05": check_C05, "C07": check_C07}
+CHECKS = {"C01": check_C01, "C02": check_C02, "C08": check_C08, "C09": check_C09, "C06": check_C06, "C10": check_C10, "C12": check_C12, "C13": check_C13, "C16": check_C16, "C17": check_C17, "C03": check_C03, "C04": check_C04, "C05": check_C05, "C07": check_C07}
 
 # per-property manifest metadata
 META = {
@@ -343,6 +354,12 @@ META = {
         note="Small-scope: <=3 entries per population, three size classes; atimes set explicitly.",
         technique="exhaustive enumeration of a bounded grammar of on-disk states x configurations, real start-up code, reference simulation oracle",
         design_ref="DESIGN.md 3 (C09)"),
+    "C16": dict(
+        category="exploration", engine="E4 grid",
+        text="Bounded-exhaustive enumeration of ByteStream.Write message sequences against the real handler: every composition of a small payload into messages (including empty and one-byte messages), finish_write placement, resource name omitted/repeated/changed on later messages, first write_offset 0/1, declared size n/n-1/n+1, blob present or absent beforehand, blobs/ and compressed-blobs/zstd, instance-name prefixes, trailing metadata and unparsable names. Oracle from the statement: committed_size == payload bytes sent (or size / -1 on the early return for an existing blob), presence afterwards, malformed streams fail and store nothing, QueryWriteStatus complete with the full size exactly when present.",
+        note="Channel/pipe interleavings inside the handler are not controlled (Go channel operations cannot be intercepted by import rewriting); inputs are enumerated exhaustively.",
+        technique="exhaustive enumeration of bounded message sequences through the real stream handler against a protocol table",
+        design_ref="DESIGN.md 3 (C16)"),
     "C17": dict(
         category="model_checking", engine="E2 seqx + E1 vsched + E4 grid",
         text="Admission under max_size_hard_limit decided three ways: explicit-state BFS over reserve/add/get/remove/remover-step sequences on the real SizedLRU for limits {unset, max, max+1 block, max+2 blocks} with the exact iff-oracle and 'refused => nothing changed'; schedule exploration of concurrent uploads into a full cache with the background remover and its atomic backlog counter owned by the scheduler (all amounts of deletion lag), checking status codes, 'never refused when the option is unset', retry-after-drain and the accounting/directory invariants; and the HTTP 507 / gRPC RESOURCE_EXHAUSTED mapping plus 'reads keep working' on every write path at server level.",
